@@ -968,6 +968,55 @@ fn row_widths(width: usize, height: usize, interlaced: bool) -> Vec<usize> {
     v
 }
 
+/// valid files from the reference builder with every kind of tRNS the rules mention: a colour key that occurs / does not occur /
+/// nearly occurs for every gray depth and both RGB depths, alpha tables shorter / equal / longer than the palette, palettes of
+/// 1..2^depth entries; both interlace methods; small sizes (the conversion is per row, the geometry is C01's and C15's)
+fn generated_files(ctx: &mut Ctx) -> Vec<(String, Vec<u8>)> {
+    use crate::refpng::{ihdr, idat_chunks, serialize, Deflater, Filters, Img, RawChunk, Split, Still};
+    let mut rng = ctx.rng.fork(0x0c08_f11e);
+    let mut out = vec![];
+    let pairs: [(u8, u8); 11] = [(0, 1), (0, 2), (0, 4), (0, 8), (0, 16), (2, 8), (2, 16), (3, 1), (3, 2), (3, 4), (3, 8)];
+    let n = ctx.n(66, 660);
+    for k in 0..n {
+        let (color, depth) = pairs[k % pairs.len()];
+        let w = rng.range(1, 12) as u32;
+        let h = rng.range(1, 6) as u32;
+        let img = Img::random(&mut rng, color, depth, w, h);
+        let interlace = rng.below(3) == 0;
+        let mut cs = vec![ihdr(w, h, depth, color, interlace as u8)];
+        let mut kind = "none";
+        if color == 3 {
+            let entries = rng.usize(1, 1usize << depth);
+            cs.push(RawChunk::new(b"PLTE", rng.bytes(entries * 3)));
+            let tl = match rng.below(5) { 0 => None, 1 => Some(entries), 2 => Some(rng.usize(1, entries)), 3 => Some(entries + rng.usize(1, 3)), _ => Some(1) };
+            if let Some(tl) = tl {
+                kind = if tl > entries { "alpha-longer" } else if tl == entries { "alpha-equal" } else { "alpha-shorter" };
+                cs.push(RawChunk::new(b"tRNS", rng.bytes(tl)));
+            }
+        } else {
+            let px = img.get_px(rng.usize(0, w as usize - 1), rng.usize(0, h as usize - 1));
+            // samples of the chosen pixel as 16-bit big-endian values
+            let mut key: Vec<u8> = if depth == 16 { px.clone() } else { px.iter().flat_map(|&v| [0u8, v]).collect() };
+            match rng.below(5) {
+                0 => { kind = "no-trns"; key.clear(); }
+                1 => { kind = "key-near-miss"; let l = key.len(); key[l - 1] ^= 1; }
+                2 if depth == 16 => { kind = "key-high-byte-only"; let l = key.len(); key[l - 1] = key[l - 1].wrapping_add(0x80); }
+                _ => { kind = "key-occurs"; }
+            }
+            if !key.is_empty() {
+                cs.push(RawChunk::new(b"tRNS", key));
+            }
+        }
+        let still = Still { img, interlace, filters: Filters::Random, deflater: Deflater::Level(6), split: Split::One };
+        let (idats, _) = idat_chunks(&still, &mut rng);
+        cs.extend(idats);
+        cs.push(RawChunk::new(b"IEND", vec![]));
+        ctx.rep.count("generated file trns", kind);
+        out.push((format!("generated-{}-c{}d{}{}-{}", k, color, depth, if interlace { "i" } else { "" }, kind), serialize(&cs)));
+    }
+    out
+}
+
 fn files_part(ctx: &mut Ctx) {
     let dir = "/repo/tests/pngsuite";
     let mut names: Vec<String> = match std::fs::read_dir(dir) {
@@ -987,21 +1036,28 @@ fn files_part(ctx: &mut Ctx) {
     let mut skipped = 0usize;
     let mut trns_lines: Vec<String> = Vec::new();
     let mut trns_expect: Vec<(String, String)> = Vec::new();
-    for name in &names {
-        let bytes = match std::fs::read(format!("{}/{}", dir, name)) {
-            Ok(b) => b,
-            Err(_) => continue,
-        };
-        let id = match decode_file(&bytes, 0) {
+    let mut files: Vec<(String, Vec<u8>)> = names.iter().filter_map(|n| std::fs::read(format!("{}/{}", dir, n)).ok().map(|b| (n.clone(), b))).collect();
+    let from_suite = files.len();
+    files.extend(generated_files(ctx));
+    for (fi, (name, bytes)) in files.iter().enumerate() {
+        let id = match decode_file(bytes, 0) {
             Ok(Ok(d)) => d,
-            _ => {
+            other => {
+                if fi >= from_suite {
+                    // a file of the reference builder is valid by construction
+                    ctx.rep.violation("oracle", "file/error", &format!("{}: a valid generated file does not decode under IDENTITY: {:?}", name, other.map(|r| r.map(|_| ()))),
+                        J::obj().set("op", J::s("file")).set("file", J::s(name)).set("flags", J::i(0)));
+                }
                 skipped += 1;
                 continue;
             }
         };
         used += 1;
         // metadata as stored vs the raw chunks of the file (ties `parseTrns`)
-        let (raw_plte, raw_trns) = raw_chunks(&bytes);
+        let (raw_plte, raw_trns) = raw_chunks(bytes);
+        // the key / alpha table the documented rules work with comes from the file's own tRNS chunk where that is
+        // well-formed (independent of what the decoder stored), otherwise from what the decoder stored
+        let doc_trns: Option<Vec<u8>> = match &raw_trns { Some(rt) => key_from_raw(id.color, id.depth, rt).or(id.trns.clone()), None => id.trns.clone() };
         if let Some(rt) = &raw_trns {
             let want = key_from_raw(id.color, id.depth, rt);
             if want.is_some() && want != id.trns {
@@ -1035,7 +1091,7 @@ fn files_part(ctx: &mut Ctx) {
         for flags in 0..8u8 {
             let key = fnv64(format!("file {} {}", name, flags).as_bytes());
             ctx.rep.eval(true, key);
-            let t = match decode_file(&bytes, flags) {
+            let t = match decode_file(bytes, flags) {
                 Ok(Ok(d)) => d,
                 Ok(Err(e)) => {
                     ctx.rep.violation("oracle", "file/error", &format!("{} decodes under IDENTITY but fails under flags {:#x}: {}", name, flags, e), case_json(flags));
@@ -1069,7 +1125,7 @@ fn files_part(ctx: &mut Ctx) {
                     flags,
                     width: id.width,
                     plte: id.plte.clone(),
-                    trns: id.trns.clone(),
+                    trns: doc_trns.clone(),
                     row: id.frame[y * id_line..(y + 1) * id_line].to_vec(),
                 };
                 let got = &t.frame[y * ls..(y + 1) * ls];
@@ -1088,7 +1144,7 @@ fn files_part(ctx: &mut Ctx) {
                     bad = Some(format!("row path delivered {} rows, expected {}", t.rows.len(), widths.len()));
                 } else {
                     for (k, &w) in widths.iter().enumerate() {
-                        let c = Case { color: id.color, depth: id.depth, flags, width: w, plte: id.plte.clone(), trns: id.trns.clone(), row: id.rows[k].clone() };
+                        let c = Case { color: id.color, depth: id.depth, flags, width: w, plte: id.plte.clone(), trns: doc_trns.clone(), row: id.rows[k].clone() };
                         if ref_convert(&c).as_deref() != Some(&t.rows[k][..]) {
                             bad = Some(format!("row path, delivered row {} (width {})", k, w));
                             break;
@@ -1137,7 +1193,7 @@ fn files_part(ctx: &mut Ctx) {
         }
     }
     ctx.rep.notes.push(format!(
-        "whole-file part: {} pngsuite files x 8 flag sets (frame path and row path), {} files skipped because the identity decode fails; {} file rows also sent to the model",
+        "whole-file part: {} files (pngsuite + generated tRNS/PLTE files) x 8 flag sets (frame path and row path), {} files skipped because the identity decode fails; {} file rows also sent to the model",
         used, skipped, model_lines.len()
     ));
 }
